@@ -82,7 +82,10 @@ func parseRangeHeader(s string) (*ObjectRangeRequest, error) {
 
 	ranges := strings.Split(s[len(b):], ",")
 	if len(ranges) > 1 {
-		return nil, ErrorMessage(ErrNotImplemented, "multiple ranges not supported")
+		// Only a single range can be served. InvalidRange is the answer for a
+		// range that cannot be satisfied; NotImplemented would make a Range
+		// header a way to get a 5xx out of a GET.
+		return nil, ErrorMessage(ErrInvalidRange, "multiple ranges not supported")
 	}
 
 	rnge := strings.TrimSpace(ranges[0])
